@@ -26,6 +26,9 @@ RULE = (
     "aliasing, type/covers refusal, singleton rule). Distinct by (type, tags) for values and by (container, op, outcome class) "
     "sequences fingerprints for histories."
 )
+RULE += " " + (
+    "Also: records built from the caller's mutable containers (bytearray, lists) must not follow later changes of those containers; augmented assignment keeps object identity; an ImmutableRdataset does not follow its source."
+)
 ASSUMPTIONS = [
     "reference ordered-set + TTL model in this file (insertion order of survivors; TTL merged by union/intersection/update/add(ttl))",
     "case-insensitivity of embedded names is demanded for the RFC 4034 §6.2 types (minus NSEC); LP and CH A are owned by C15",
